@@ -561,6 +561,14 @@ func (c *UConn) clientHandshake(ctx context.Context) (err error) {
 	// support, check for the server downgrade canaries.
 	// See RFC 8446, Section 4.1.3.
 	maxVers := c.config.maxSupportedVersion(roleClient)
+	// [uTLS] What counts is the highest version this ClientHello advertised, not
+	// what the Config says now: the Config may be shared with other connections,
+	// and uTLS writes each spec's version range into it.
+	for _, v := range hello.supportedVersions {
+		if !isGREASEUint16(v) && v > maxVers && v <= VersionTLS13 {
+			maxVers = v
+		}
+	}
 	tls12Downgrade := string(serverHello.random[24:]) == downgradeCanaryTLS12
 	tls11Downgrade := string(serverHello.random[24:]) == downgradeCanaryTLS11
 	if maxVers == VersionTLS13 && c.vers <= VersionTLS12 && (tls12Downgrade || tls11Downgrade) ||
